@@ -319,7 +319,15 @@ def buffering(V, **params):
     return c08.buffering(V, **params)
 
 
-FUNCS = {"buffering": buffering, "lut": lut, "wbuf": wbuf, "rolling": rolling, "lr_rolling": lr_rolling, "build_twice": build_twice, "memcpy": memcpy, "wbuf_sizes": wbuf_sizes}
+def format_rules(V, **params):
+    """a DMA copy (Memcpy) moves the linear bytes of its source: neither its input nor its output may use the brick format, or the consumer
+    addresses bytes nothing defined (harness/c02.py format_rules: the real check_format_restrictions with symbolic producers/consumers)"""
+    from harness import c02
+
+    return c02.format_rules(V, **params)
+
+
+FUNCS = {"format_rules": format_rules, "buffering": buffering, "lut": lut, "wbuf": wbuf, "rolling": rolling, "lr_rolling": lr_rolling, "build_twice": build_twice, "memcpy": memcpy, "wbuf_sizes": wbuf_sizes}
 
 
 def instances(tier, seed):
@@ -341,7 +349,11 @@ def instances(tier, seed):
     from harness import c10
 
     from harness import c08
+    from harness import c02
 
+    for inst in c02.instances(tier, seed):
+        if inst["fn"] == "format_rules":
+            out.append(dict(key=inst["key"], fn="format_rules", params=inst["params"], weight=inst.get("weight", 1)))
     for inst in c08.instances(tier, seed):
         if inst["fn"] == "encode":
             out.append(dict(key="wbuf_sizes/" + inst["key"], fn="wbuf_sizes", params=inst["params"], weight=inst.get("weight", 1)))
